@@ -556,12 +556,19 @@ class Circuit:
         marks = [False] * len(self.nodes)
         for n in origin_nodes:
             marks[n] = True
+        state_nodes = []
         for n in self.reversed_topological_order():
             if not marks[n]:
+                if 'dff' in n.kind.lower() or 'latch' in n.kind.lower():
+                    state_nodes.append(n)  # yielded first as sinks; their outputs can only be judged at the end
+                    continue
                 for line in n.outs:
                     if line is not None:
                         marks[n] |= marks[line.reader]
             if marks[n]:
+                yield n
+        for n in state_nodes:
+            if any(line is not None and marks[line.reader] for line in n.outs):
                 yield n
 
     def fanout_free_regions(self):
